@@ -37,8 +37,12 @@ RULE = ("(M) exhaustive TLC runs of TextTab.tla (API call sequences = tables; in
 ASSUMPTIONS = [
     "domain: every multi-column cell covers at least one non-shrink column (TextTab_asbuilt.cfg shows the overflow otherwise; "
     "benchstat's own 'vs base' header violates this when no row of a column has a comparison - reported through the binary)",
-    "cell contents are non-blank, without leading/trailing blanks; a margin-only cell whose margin text ends in a blank and "
-    "that is last on its line leaves that blank (the caller asked for it)",
+    "cell contents are without leading/trailing blanks; a margin-only cell whose margin text ends in a blank and "
+    "that is last on its line leaves that blank (the caller asked for it). Blank-only contents: every replayed table is built a "
+    "third time with a seeded subset of its cells (blank margin kinds) holding w blank runes (space, tab, NBSP, U+2003, U+3000) "
+    "instead of content - such a cell is an empty cell: the other cells must stay where the specification puts them, a line whose "
+    "last cell is kept is unchanged, a line that loses its last cells ends where its last remaining cell ends "
+    "(signatures texttab:blank-cell-*)",
     "<= 12 cells per model table: sort.Slice is then an insertion sort, i.e. stable; for larger tables the order of equal-span "
     "cells is not modelled operationally (the declarative requirements do not depend on it)",
     "width = number of runes; display width of wide/combining characters is outside the model",
